@@ -361,6 +361,32 @@ def libpass_diff(run):
             run.count(f"cmp:libpass.{name}")
 
 
+def htdigest_encodings(run):
+    """htdigest under non-default encodings: MD5(user:realm:password) over the bytes of THAT encoding, in hash() and verify() alike"""
+    import hashlib
+    import passlib.hash as PH
+    for enc in ("latin-1", "cp1252", "iso-8859-15", "utf-8", "koi8-r"):
+        for user, realm, pw in (("\u00fcser", "r\u00e9alm", "p\u00e4ssw\u00f6rd"), ("u", "r", "p\u00e4ss"), ("\u00fcser", "r", "pw"), ("u", "r\u00e9alm", "pw")):
+            if enc == "koi8-r":
+                user, realm, pw = "\u044e\u0437\u0435\u0440", "r", "\u043f\u0430\u0440\u043e\u043b\u044c"
+            want = hashlib.md5(f"{user}:{realm}:{pw}".encode(enc)).hexdigest()
+            w = dict(format="htdigest", encoding=enc, user=user, realm=realm, password=pw, reference=want)
+            try:
+                got = PH.htdigest.hash(pw, user, realm, encoding=enc)
+                ok = PH.htdigest.verify(pw, want, user, realm, encoding=enc)
+                ok_b = PH.htdigest.verify(pw.encode(enc), want, user.encode(enc), realm.encode(enc), encoding=enc)
+                bad = PH.htdigest.verify(pw + "x", want, user, realm, encoding=enc)
+            except Exception as e:
+                run.violation(f"C02|htdigest|encoding|raises|{type(e).__name__}", f"htdigest with encoding={enc!r} raised {type(e).__name__}: {str(e)[:80]}", w)
+                continue
+            run.count("htdigest_encoding_cases")
+            run.case(("htdigest", "encoding", enc, user.isascii(), realm.isascii(), pw.isascii()), w)
+            if got != want:
+                run.violation("C02|htdigest|encoding|digest-mismatch", f"htdigest.hash(.., encoding={enc!r}) = {got}, MD5 over the {enc} bytes is {want}", dict(w, passlib=got))
+            if ok is not True or ok_b is not True or bad:
+                run.violation("C02|htdigest|encoding|ref-hash-rejected", f"htdigest.verify(.., encoding={enc!r}) of the reference digest: text={ok} bytes={ok_b} wrong-password={bad}", w)
+
+
 def first_call(run, name):
     """the very first digest of a fresh interpreter (no backend loaded yet) equals the reference as well"""
     rng = run.rng("first:" + name)
@@ -403,6 +429,8 @@ def body(run):
                  env={"PASSLIB_BUILTIN_BCRYPT": "1"})
     run.parallel("checks.c02", "first_call", [dict(name=n) for n in ("bcrypt_sha256", "django_bcrypt_sha256", "bcrypt", "ldap_bcrypt", "django_bcrypt", "sha256_crypt", "des_crypt", "scrypt")], timeout=600)
     run.require("first_call_cases", 6)
+    htdigest_encodings(run)
+    run.require("htdigest_encoding_cases", 15)
     django_cross(run)
     libpass_diff(run)
     sun_md5_bare(run)
